@@ -24,6 +24,11 @@ Check C17_variance_nonneg : forall l,
 Check C17_mean_in_range : forall l, l <> [] ->
   r_low (d_range (s_disp (ds_run l))) <= s_mean (ds_run l) /\
   s_mean (ds_run l) <= r_high (d_range (s_disp (ds_run l))).
+Check C17_value_at_mean : forall s : ds,
+  s_mean (ds_update s (s_mean s)) = s_mean s /\
+  d_m (s_disp (ds_update s (s_mean s))) = d_m (s_disp s) /\
+  d_var (s_disp (ds_update s (s_mean s))) = calc_pop_var (d_m (s_disp s)) (s_count s + 1) /\
+  s_count (ds_update s (s_mean s)) = s_count s + 1.
 Check C17_order_independent : forall l l', Permutation l l' -> ds_run l = ds_run l'.
 Check C17_std_dev_determined : forall v s1 s2 : Qc,
   0 <= s1 -> 0 <= s2 -> s1 * s1 = v -> s2 * s2 = v -> s1 = s2.
